@@ -172,12 +172,19 @@ impl Thread {
         thread.insert("threadIndex".to_owned(), json!(self.thread_index));
 
         if !self.previous_pointer.is_null() {
-            thread.insert(
-                "previousContentObject".to_owned(),
-                json!(
-                    Object::get_path(self.previous_pointer.resolve().unwrap().as_ref()).to_string()
-                ),
-            );
+            // A pointer beyond the end of its container (from a malformed
+            // save) addresses no object: it is written as container + index.
+            let previous_path = match self.previous_pointer.resolve() {
+                Some(previous_obj) => Some(Object::get_path(previous_obj.as_ref())),
+                None => self.previous_pointer.get_path(),
+            };
+
+            if let Some(previous_path) = previous_path {
+                thread.insert(
+                    "previousContentObject".to_owned(),
+                    json!(previous_path.to_string()),
+                );
+            }
         }
 
         Ok(serde_json::Value::Object(thread))
